@@ -93,11 +93,9 @@ def ref_step(base, suffix, cls, directives_only):
     if suffix == "sq":
         if cls == "bs":
             return base, "sq-esc", [("nonspace", "c")], False, False
-        if cls == "slash":
-            return base, "sq-slash", [], False, False
         if cls == "sq":
             return base, "", [("nonspace", "c")], False, False
-        return base, "sq", [("nonspace", "c")], False, False
+        return base, "sq", [("nonspace", "c")], False, False      # incl. '/': no comment starts inside a character constant
     if suffix == "sq-esc":
         return base, "sq", [("nonspace", "c")], False, False
     if suffix in ("slash", "sq-slash"):
